@@ -35,6 +35,10 @@ def setup():
     sys.path.insert(0, REPO)
     if VERIF_DIR not in sys.path:
         sys.path.insert(1, VERIF_DIR)
+    import warnings
+
+    warnings.filterwarnings("ignore", category=FutureWarning)
+    warnings.filterwarnings("ignore", message=".*Casting complex values to real.*")
     from ad_afqmc import config
 
     config.afqmc_config["use_mpi"] = False
